@@ -12,7 +12,7 @@ def run(rep, fb, tier):
     run_family("C08", rep, fb, tier, EXTRAS)
 
 
-from ..rules import fintab
+from ..rules import fintab, origin
 
 
 EXTRAS = [
@@ -20,4 +20,5 @@ EXTRAS = [
     lambda rep, fb, tier: fintab.rule_dtype_tables(rep, fb),
     lambda rep, fb, tier: st.rule_family(rep, fb),
     lambda rep, fb, tier: st.rule_clone(rep, fb),
+    lambda rep, fb, tier: origin.rule_merge_regular(rep, fb),
 ]
